@@ -54,6 +54,9 @@ def callees(P, body):
 def scan(P, mir_text, entries=('rewrite_js', 'print_js')):
     fns = P.fns
     statics = re.findall(r'^static (?:mut )?([A-Za-z_0-9:]+): (.*?) = ', mir_text, re.M)
+    # thread_local! statics: rustc prints the key as a const `NAME` and the slot as `&/*tls*/ NAME::{constant#0}::..`
+    for tl in sorted(set(re.findall(r'&/\*tls\*/ ([A-Za-z_0-9:]+?)::\{constant#\d+\}', mir_text))):
+        statics.append((tl.split('::')[-1], 'thread_local'))
     text_of = {}
     cur = None
     for line in mir_text.split('\n'):
@@ -67,7 +70,11 @@ def scan(P, mir_text, entries=('rewrite_js', 'print_js')):
             text_of.setdefault(cur, [])
             continue
         if line.startswith(('const ', 'static ')):
-            cur = None
+            # promoted constants belong to the function they were lifted out of
+            pm = re.match(r'^const (.*)::promoted\[\d+\]: ', line)
+            cur = pm.group(1) if pm else None
+            if cur is not None:
+                text_of.setdefault(cur, [])
         if cur is not None:
             text_of[cur].append(line)
     reach = set()
